@@ -206,6 +206,9 @@ def _members(repo, mod, cls):
 
 def run(repo, rep):
 
+    from .shared import truthiness_lint
+
+    truthiness_lint(repo, rep, "C06-d", ['register_command_stream_generator', 'register_command_stream_util', 'high_level_command_to_npu_op', 'api'])
     from .shared import mirror_families, module_axis_lint
 
     module_axis_lint(repo, rep, "C06-d", ['register_command_stream_generator', 'register_command_stream_util', 'high_level_command_to_npu_op', 'api'])
@@ -241,18 +244,15 @@ def run(repo, rep):
     from . import c04
 
     rep.clause("C06-l", "the access set the waits are computed from names every address-bearing field of the operation and the SHRAM it touches [rule shared with C04-b]")
-    with rep.borrow({"C04-d": "C06-i", "C04-e": "C06-j", "C04-b": "C06-l"}):
-        c04.run(repo, rep)
+    rep.run_borrowed(c04, {"C04-d": "C06-i", "C04-e": "C06-j", "C04-b": "C06-l"}, repo)
     rep.clause("C06-k", "OFM / OPA / OPB scale registers receive the (scale, shift) pair of their own role from the scale derivations [rule shared with C09-c]")
     from . import c09
 
-    with rep.borrow({"C09-c": "C06-k"}):
-        c09.run(repo, rep)
+    rep.run_borrowed(c09, {"C09-c": "C06-k"}, repo)
     rep.clause("C06-m", "the SHRAM layout emitted for an operation (try_block_config) is derived like the layout the block config was selected with (find_block_config) [rule shared with C15-d]")
     from . import c15
 
-    with rep.borrow({"C15-d": "C06-m"}):
-        c15.run(repo, rep)
+    rep.run_borrowed(c15, {"C15-d": "C06-m"}, repo)
 
 
 # ------------------------------------------------------------------ a, b: tables
